@@ -68,7 +68,7 @@ def gen(seed, idx, tier):
         # seeded from an adaptive run whose step had grown: the controller of the new run must
         # start from ITS dt_init and respect ITS dt_max / adaptive flag
         scn["seed_phase"] = {"dt_init": o["dt_init"], "dt_max": scen.r3(o["dt_init"] * rnd.choice([10.0, 50.0])), "steps": rnd.randint(4, 12), "window": 1}
-        if scn["drive"]["field"]["kind"] in ("ramp", "pw", "sin"):
+        if scn["drive"]["field"]["kind"] in ("ramp", "pw", "sin", "wave"):
             scn["drive"]["field"] = {"kind": "const", "B": scn["drive"]["field"]["B"]}
     return scn
 
